@@ -269,9 +269,12 @@ def tokio_run(chk, prog, cfg, fn):
             if info and info["kind"] == "enum" and "__tokio_select_util::Out" in (info.get("src_ty") or "") and variant in info["edges"]:
                 found = True
                 tgt = info["edges"][variant]
-                seen = co.reachable([tgt], removed_nodes=set(accepts))
-                rets = [r for r in core.ok_return_blocks(co, "Ok") if r in seen]
-                loops_back = any(a in co.reachable([tgt]) for a in accepts)
+                # (on the product with the finite store: `let ev = select! { .. => Event::Shutdown, .. }; match ev { Shutdown => break .. }`
+                # keeps the branch in an enum local between the select and the break)
+                from .. import absreach as _ar
+                feas = _ar.feasible_from(co, [tgt], prog)
+                rets = [r for r in core.ok_return_blocks(co, "Ok") if r in feas]
+                loops_back = any(a in feas for a in accepts)
                 chk.ob("R1.tokio_cancel", co.path, "the cancelled branch leaves the accept loop with Ok(())", bool(rets) and not loops_back,
                        "after cancellation the accept loop continues", where=co.where(s), cfg=cfg)
     chk.ob("R1.tokio_cancel", co.path, "run() branches on the select outcome", found, "", cfg=cfg)
